@@ -40,6 +40,10 @@ pub enum Codec {
     Json = 5,
     Be = 6,
     Le = 7,
+    /// the same JSON text read through `serde_json::from_reader` (hands the visitor OWNED strings, as a file or socket does)
+    JsonReader = 8,
+    /// the same JSON text parsed into a `serde_json::Value` first and decoded with `from_value` (a field of a larger document)
+    JsonValue = 9,
 }
 impl Codec {
     pub const MAIN: [Codec; 3] = [Codec::Bytes, Codec::Bare, Codec::Json];
@@ -53,8 +57,14 @@ impl Codec {
         Codec::Be,
         Codec::Le,
     ];
+    /// the two further front ends of the human-readable form (not in `ALL`: they share `Json`'s text)
+    pub const JSON_FRONT_ENDS: [Codec; 2] = [Codec::JsonReader, Codec::JsonValue];
     pub fn from_u8(b: u8) -> Option<Codec> {
-        Codec::ALL.get(b as usize).copied()
+        match b {
+            8 => Some(Codec::JsonReader),
+            9 => Some(Codec::JsonValue),
+            _ => Codec::ALL.get(b as usize).copied(),
+        }
     }
     pub fn name(self) -> &'static str {
         match self {
@@ -64,6 +74,8 @@ impl Codec {
             Codec::BytesBox => "bytes-box",
             Codec::Bare => "bare",
             Codec::Json => "json",
+            Codec::JsonReader => "json-from-reader",
+            Codec::JsonValue => "json-from-value",
             Codec::Be => "be",
             Codec::Le => "le",
         }
